@@ -3,7 +3,7 @@
 checks, compare with the expectation, and undo (git checkout).  Breaking mutants must make the named check
 report a violation whose key contains the expected substring; preserving mutants must leave the checks silent.
 
-usage: mutate.py [--only substr] [--keep-going]
+usage: mutate.py [--only substr] [--repo <git worktree of /repo>]
 """
 import json, os, subprocess, sys, time
 V = os.path.dirname(os.path.dirname(os.path.abspath(__file__)))
@@ -48,9 +48,16 @@ def seeded_entries():
 
 
 def main():
+    global REPO
     only = None
     if "--only" in sys.argv:
         only = sys.argv[sys.argv.index("--only") + 1]
+    if "--repo" in sys.argv:
+        # run against another checkout (a scratch git worktree of /repo), leaving /repo free for interactive use
+        REPO = sys.argv[sys.argv.index("--repo") + 1]
+        os.environ["VERIF_REPO"] = REPO
+        os.environ["VERIF_EVIDENCE_DIR"] = os.path.join(REPO, "_evidence")
+        os.environ.setdefault("FACTX_TARGET", os.path.join(V, ".cache", "target-mut"))
     idx = json.load(open(os.path.join(V, "mutants/index.json")))
     idx["mutants"] = list(idx["mutants"]) + seeded_entries()
     if not clean():
